@@ -34,7 +34,7 @@ ASSUMPTIONS = [
     "pandas sort_values is modelled as a stable sort; ties that could be resolved differently by an unstable sort only "
     "arise between a tempo row and the head/tail marker rows, which the correspondence run would expose",
 ]
-TRUSTED = ["harness-side Python re-implementation of model and oracle in c19.py is used only to classify known findings"]
+TRUSTED = []
 MANIFEST = dict(
     text="Machine-checked theorems (Coq 8.16.1) about an executable Gallina model over exact rationals of the three pandas pipelines "
          "(dominant_bpm: stack max/concat/sort/diff/positional set_axis/groupby-sum/idxmax; scroll_speed: head/tail rows, stable sort, "
@@ -99,32 +99,6 @@ def in_domain(case):
         return False
     ov = _ov(case)
     return ov is None or ov > 0
-
-
-# ------------------------------------------------------------------ Python copy of the faithful model (pinned behaviour)
-def m_groups(case):
-    b = _bpms(case)
-    st = _stack(case)
-    if not st:
-        return None
-    last = max(st)
-    s = sorted([o for o, _ in b] + [last])
-    d = [s[i + 1] - s[i] for i in range(len(s) - 1)]
-    g = {}
-    for (_, bpm), x in zip(b, d):
-        g[bpm] = g.get(bpm, Fr(0)) + x
-    return sorted(g.items())
-
-
-def m_dom(case):
-    g = m_groups(case)
-    if not g:
-        return None
-    best = g[0]
-    for x in g[1:]:
-        if x[1] > best[1]:
-            best = x
-    return best[0]
 
 
 # ------------------------------------------------------------------ Python copy of the specification
@@ -221,7 +195,7 @@ def py_oracle(case, out):
     return any(s_norm_ok(case, v, r, tol) for r in refs)
 
 
-# ------------------------------------------------------------------ known-finding classification
+# ------------------------------------------------------------------ input classes that used to fail (before d3e6d46); for the distribution only
 def _defect_feature(case):
     b, svs, n = _bpms(case), _svs(case), _notes(case)
     offs = [o for o, _ in b]
@@ -235,30 +209,9 @@ def _defect_feature(case):
 
 
 def classify(case, out, kind):
-    """A key is returned only when (i) the input has the triggering feature, (ii) the pinned dominant_bpm computation
-    (Python copy of the model) is not a maximiser for this input, and (iii) the implementation's output is exactly what
-    that wrong reference explains.  Anything else stays unclassified and raises."""
-    try:
-        if kind != "spec" or not in_domain(case):
-            return None
-        feat = _defect_feature(case)
-        if feat is None or (case["kind"] != "dom" and _ov(case)):
-            return None
-        tol = _tol(case)
-        md = m_dom(case)
-        if md is None or md in s_argmax(case, tol):
-            return None
-        v = _out_v(case, out)
-        if v is None:
-            return None
-        k = case["kind"]
-        if k == "dom":
-            return feat if v == md else None
-        if k == "scroll":
-            return feat if s_scroll_ok(case, v, md, tol) else None
-        return feat if s_norm_ok(case, v, md, tol) else None
-    except Exception:
-        return None
+    """The three dominant_bpm defects of the originally pinned tree were repaired in /repo commit d3e6d46
+    (findings/C19.json: status fixed); nothing is treated as known any more, every violation raises."""
+    return None
 
 
 # ------------------------------------------------------------------ generator
@@ -291,7 +244,7 @@ def _gen_chart(rng, kind, exact, big=False):
         offs.add(_off(rng, exact, 0, 10000))
     offs = sorted(offs)
     bpms = [[o, rng.choice(pool)] for o in offs]
-    if nb >= 2 and rng.random() < 0.04:
+    if 2 <= nb <= 7 and rng.random() < 0.04:     # (unstable pandas sort: only small charts, where numpy's sort is stable)
         bpms[1][0] = bpms[0][0]
     first = min(o for o, _ in bpms)
     last_t = max(o for o, _ in bpms)
